@@ -237,13 +237,15 @@ static const int CK_CL = 0, CK_ED = 1, CK_EQ = 2;
 static const char * kContName[] = { "HeterCallbackList", "HeterEventDispatcher", "HeterEventQueue" };
 
 template <typename Key> struct KeyGen;
-template <> struct KeyGen<int> { static int make(int ki) { static const int k[] = { 3, 11, 42 }; return k[ki]; } static const char * name() { return "int"; } };
+template <> struct KeyGen<int> { static int make(int ki) { static const int k[] = { 3, 11, 42 }; return k[ki]; } static const char * name() { return "int"; }
+	static long other(const int & k) { return (long)k; } }; // the event passed as another type that converts to the key type
 template <> struct KeyGen<std::string> {
 	static std::string make(int ki) { static const char * k[] = { "k0", "key-one-that-is-long-enough-to-live-on-the-heap-0123456789", "k2" }; return k[ki]; }
 	static const char * name() { return "std::string"; }
+	static const char * other(const std::string & k) { return k.c_str(); }
 };
 
-template <int Cont_, int Order_, bool Include_, typename Key_, typename Thr_>
+template <int Cont_, int Order_, bool Include_, typename Key_, typename Thr_, bool DefaultGetEvent_ = false>
 struct Cfg
 {
 	static const int cont = Cont_;
@@ -259,7 +261,7 @@ struct Cfg
 	// lvalues (copies), never forward the caller's rvalues into it - the listeners still need them intact
 	struct NoGetEvent {};
 	struct ByValueGetEvent { template <typename ...A> static Key_ getEvent(const Key_ & k, A...) { return k; } };
-	struct Pol : std::conditional<Include_, NoGetEvent, ByValueGetEvent>::type
+	struct Pol : std::conditional<Include_ || DefaultGetEvent_, NoGetEvent, ByValueGetEvent>::type // DefaultGetEvent_: exclude-event form WITHOUT a getEvent policy (the library's default takes the first argument)
 	{
 		typedef Thr_ Threading;
 		typedef typename std::conditional<Include_, eventpp::ArgumentPassingIncludeEvent, eventpp::ArgumentPassingExcludeEvent>::type ArgumentPassingMode;
@@ -269,7 +271,7 @@ struct Cfg
 	typedef typename Obj::Handle Handle;
 	static std::string name() {
 		return std::string(kContName[Cont_]) + " order=" + num(Order_) + (Include_ ? " include-event" : " exclude-event") + " key=" + KeyGen<Key_>::name()
-			+ (std::is_same<Thr_, eventpp::SingleThreading>::value ? " single" : " multi");
+			+ (std::is_same<Thr_, eventpp::SingleThreading>::value ? " single" : " multi") + (DefaultGetEvent_ ? " default getEvent" : "");
 	}
 };
 
@@ -1021,6 +1023,15 @@ struct World : WorldBase
 		else { const Key & k = keys[ki]; emitK<Enq, false>(ki, kind, id, inside, k, std::forward<A>(a)...); }
 	}
 
+	// the event is passed as a value of ANOTHER type that converts to the key type (const char * for std::string, long for int):
+	// the library has to build the key from it and keep that key alive for as long as it uses it
+	template <bool Enq, typename ...A>
+	void emitOther(int ki, int kind, int id, bool inside, A && ...a)
+	{
+		if constexpr (C::hasKey) { count("event_passed_as_convertible_type"); emitK<Enq, true>(ki, kind, id, inside, KeyGen<Key>::other(keys[ki]), std::forward<A>(a)...); }
+		else emit<Enq, true>(ki, kind, id, inside, std::forward<A>(a)...);
+	}
+
 	// one generated event: Enq ? enqueue : direct invoke / dispatch, with one of 16 argument shapes
 	// (the direct form on a queue object uses 8 of them: HeterEventDispatcher configurations cover the rest)
 	template <bool Enq>
@@ -1035,7 +1046,7 @@ struct World : WorldBase
 		int s = base[k] + (int)rng.below((uint32_t)cnt[k]);
 		if(! all) s = reduced[s];
 		switch(s) {
-		case 0: emit<Enq, true>(ki, KV, id, inside); break;
+		case 0: if(id % 2) emitOther<Enq>(ki, KV, id, inside); else emit<Enq, true>(ki, KV, id, inside); break;
 		case 1: { int v = id; emit<Enq, false>(ki, KI, id, inside, v); lvalueCheck(v == id, "int"); break; }
 		case 2: if constexpr (all) emit<Enq, true>(ki, KI, id, inside, id + 0); break;
 		case 3: emit<Enq, true>(ki, KI, id, inside, (short)id); break;
@@ -1044,7 +1055,7 @@ struct World : WorldBase
 		case 6: if constexpr (all) emit<Enq, false>(ki, KSS, id, inside, strA(id), strB(id)); break;
 		case 7: { const std::string a = strA(id); const std::string b = strB(id); emit<Enq, true>(ki, KSS, id, inside, a.c_str(), b); break; }
 		case 8: if constexpr (all) { std::vector<int> v = vecOf(id); emit<Enq, true>(ki, KVEC, id, inside, v); lvalueCheck(v == vecOf(id), "vector"); } break;
-		case 9: emit<Enq, false>(ki, KVEC, id, inside, vecOf(id)); break;
+		case 9: if(id % 2) emitOther<Enq>(ki, KVEC, id, inside, vecOf(id)); else emit<Enq, false>(ki, KVEC, id, inside, vecOf(id)); break;
 		case 10: if constexpr (all) { Big p(id); emit<Enq, false>(ki, KBIG, id, inside, p); lvalueCheck(p.observe() == id, "Big"); } break;
 		case 11: emit<Enq, true>(ki, KBIG, id, inside, Big(id)); break;
 		case 12: if constexpr (all) { Small p(id); int v = id * 3 + 1; emit<Enq, true>(ki, KPI, id, inside, p, v); lvalueCheck(p.observe() == id && v == id * 3 + 1, "Small,int"); } break;
@@ -1145,7 +1156,8 @@ typedef Cfg<CK_EQ, 2, false, std::string, MT> Cfg5;
 typedef Cfg<CK_ED, 0, true, int, MT> Cfg6;
 typedef Cfg<CK_EQ, 1, true, std::string, MT> Cfg7;
 typedef Cfg<CK_EQ, 2, true, int, ST> Cfg8;
-enum { NCFG = 9 };
+typedef Cfg<CK_ED, 0, false, std::string, MT, true> Cfg9;
+enum { NCFG = 10 };
 
 static void runCase(uint64_t caseNo, Rng & rng)
 {
@@ -1154,11 +1166,11 @@ static void runCase(uint64_t caseNo, Rng & rng)
 	int cfg = only >= 0 ? (int)only : (int)(caseNo % NCFG);
 	// VF_CFG_MASK: build only a subset of the configurations (parallel compilation); other cases are skipped
 #ifndef VF_CFG_MASK
-#define VF_CFG_MASK 0x1ff
+#define VF_CFG_MASK 0x3ff
 #endif
 #define VF_CFG(n) case n: if((VF_CFG_MASK >> n) & 1) { runCfgIf<((VF_CFG_MASK >> n) & 1) != 0, Cfg##n>(mode, rng, caseNo, n); } else { skipCase(); } break;
 	switch(cfg) {
-	VF_CFG(0) VF_CFG(1) VF_CFG(2) VF_CFG(3) VF_CFG(4) VF_CFG(5) VF_CFG(6) VF_CFG(7) VF_CFG(8)
+	VF_CFG(0) VF_CFG(1) VF_CFG(2) VF_CFG(3) VF_CFG(4) VF_CFG(5) VF_CFG(6) VF_CFG(7) VF_CFG(8) VF_CFG(9)
 	default: skipCase(); break;
 	}
 }
